@@ -381,6 +381,80 @@ def gen(tier):
 '''
     H.append(xhair.Harness('paths', src, timeout=120 if quick else 600,
                            what='a->b and a->b->c through rows with string ids: valid, dangling and non-reference intermediates'))
+    # several paths in one filter whose names would collide under a naive mangling (a->b / a_b / ab / a->b_c / a_b->c), and one tag used twice
+    src = '''def path_names(f: int, p1: bool, p2: bool, p3: bool, v1: int, v2: int, v3: int) -> bool:
+    """
+    pre: 0 <= f < len(NAME_FILTERS) and 0 <= v1 <= 2 and 0 <= v2 <= 2 and 0 <= v3 <= 2
+    post: _
+    """
+    text, ast = NAME_FILTERS[conc(f, 0, len(NAME_FILTERS) - 1)]
+    r1 = {'id': 'e1', 'a': Ref('e2'), 'a_b': Ref('e3')}
+    r2 = {'id': 'e2'}
+    r3 = {'id': 'e3'}
+    if p1:
+        r2['b'] = conc(v1, 0, 2)            # a->b
+        r2['b_c'] = conc(v3, 0, 2)          # a->b_c
+    if p2:
+        r1['ab'] = conc(v2, 0, 2)
+        r1['x'] = conc(v2, 0, 2) + 2
+    if p3:
+        r3['c'] = conc(v3, 0, 2)            # a_b->c
+        r1['aB'] = conc(v1, 0, 2)
+    return check_filter(text, ast, [r1, r2, r3])
+'''
+    A_B, AB, A__B, ABC1, ABC2, ABc = ['a', 'b'], ['ab'], ['a_b'], ['a', 'b_c'], ['a_b', 'c'], ['aB']
+    nf = []
+    for (t1, q1), (t2, q2) in [(('a->b', A_B), ('a_b', A__B)), (('a_b', A__B), ('a->b', A_B)), (('a->b', A_B), ('ab', AB)), (('a->b_c', ABC1), ('a_b->c', ABC2)),
+                               (('a_b->c', ABC2), ('a->b_c', ABC1)), (('a->b', A_B), ('aB', ABc)), (('ab', AB), ('aB', ABc))]:
+        nf.append(('%s == 1 or %s == 2' % (t1, t2), ('or', ('cmp', '==', q1, 1), ('cmp', '==', q2, 2))))
+        nf.append(('%s and not %s' % (t1, t2), ('and', ('has', q1), ('not', q2))))
+        nf.append(('%s == 0 and %s == 0' % (t1, t2), ('and', ('cmp', '==', q1, 0), ('cmp', '==', q2, 0))))
+    nf.append(('x > 2 and x < 4', ('and', ('cmp', '>', ['x'], 2), ('cmp', '<', ['x'], 4))))
+    nf.append(('x == 2 or x == 4 or not x', ('or', ('or', ('cmp', '==', ['x'], 2), ('cmp', '==', ['x'], 4)), ('not', ['x']))))
+    nf.append(('a->b == 1 and a->b != 2 and a->b', ('and', ('and', ('cmp', '==', A_B, 1), ('cmp', '!=', A_B, 2)), ('has', A_B))))
+    H.append(xhair.Harness('path_names', 'NAME_FILTERS = %r\n' % (nf,) + src, timeout=150 if quick else 600,
+                           what='several paths in one filter whose names differ only in ->, _ or case (a->b / a_b / ab / aB / a->b_c / a_b->c), and one tag compared twice: each occurrence reads its own path'))
+    # the source grid got its version by auto-detection (a 3.0-only value in a row / in the metadata): the result carries that version whatever rows are selected
+    src = '''def auto_version(how: int, sel: int, limit: int) -> bool:
+    """
+    pre: 0 <= how <= 4 and 0 <= sel <= 3 and 0 <= limit <= 2
+    post: _
+    """
+    how = conc(how, 0, 4)
+    g = Grid(columns=[('id', []), ('a', []), ('v', [])]) if how != 4 else Grid(version='2.0', columns=[('id', []), ('a', []), ('v', [])])
+    g.metadata['dis'] = 'src'
+    rows = [{'id': 'r1', 'a': MARKER}, {'id': 'r2', 'v': 5}, {'id': 'r3', 'a': MARKER, 'v': 7}]
+    if how == 0:
+        rows[1]['v'] = [1, 2]               # upgraded to 3.0 by a list in a row
+    elif how == 1:
+        rows[2]['x'] = NA
+    elif how == 2:
+        g.metadata['lst'] = {'k': 1}         # upgraded through the metadata
+    for r in rows:
+        g.append(r)
+    want_ver = '2.0' if how >= 3 else '3.0'
+    if str(g.version) != want_ver:
+        return False
+    text, keep = [('a', [0, 2]), ('not a', [1]), ('zz', []), ('id', [0, 1, 2])][conc(sel, 0, 3)]
+    limit = conc(limit, 0, 2)
+    out = g.filter(text, limit)
+    want = [rows[i] for i in keep]
+    if limit:
+        want = want[:limit]
+    got = list(out)
+    if len(got) != len(want) or not all(x is y for x, y in zip(got, want)):
+        return False
+    if str(out.version) != want_ver or list(out.metadata.items()) != list(g.metadata.items()) or list(out.column.keys()) != list(g.column.keys()):
+        return False
+    import hszinc
+    for mode in (hszinc.MODE_ZINC, hszinc.MODE_JSON):
+        back = hszinc.parse(hszinc.dump(out, mode=mode), mode=mode)          # the result is a grid like any other: it dumps under its version
+        if str(back.version) != want_ver or len(back) != len(want):
+            return False
+    return str(g.version) == want_ver and len(g) == 3
+'''
+    H.append(xhair.Harness('auto_version', src, timeout=100 if quick else 400,
+                           what='filter result of a grid whose version was auto-detected (3.0-only value in a row or in the metadata, or none): same version, metadata, columns; result dumps and parses under that version'))
     # a->b after the grid has a history (deletions, replacements, insertions; id index built before or not)
     src = '''def paths_after_edits(edit: int, target: int, indexed: bool, form: int) -> bool:
     """
